@@ -16,7 +16,7 @@ from sa.ctx import Ctx
 from sa.loader import AnalysisError, call_name, norm, own_nodes, parent
 from sa.ranges import has, has_bound, refusal_constraints
 from sa.report import Report
-from rules.sigcommon import rule_bool_total, rule_normalise
+from rules.sigcommon import rule_bool_total, rule_config_forwarded, rule_normalise
 
 NOTES = ("C02: decides r,s range refusals and their domination of every use, zero-refusals of produced signatures, the "
          "low-s comparator and recovery-id flip, totality of the boolean wrappers, the strict DER refusal set, recovery "
@@ -166,7 +166,24 @@ def rule_bms_flag(ctx: Ctx, rep: Report) -> None:
     rep.ob(rule, "p2wpkh 30 < rf < 35 or rf > 38", "not (30 < rf < 35 or rf > 38)" in tests, fi.where(), f"tests {tests}")
 
 
+def rule_signer_config(ctx: Ctx, rep: Report) -> None:
+    """C02.signer_config: the Signer hands its own curve and hash function to every function it delegates to."""
+    rule_config_forwarded(ctx, rep, "C02.signer_config", f"{D}.Signer", {"_ec": "ec", "_hf": "hf"}, 3)
+
+
+def rule_signer_arm(ctx: Ctx, rep: Report) -> None:
+    """C02.signer_arm: a Signer signs on the arm its state was laid out for at
+    construction (key in the bindings' buffer, or as an int): it never asks the
+    dispatch predicate again, whose answer is process-wide state that may have
+    moved -- else the signature depends on that state and not on (key, message)."""
+    from rules.C04 import token_reask
+    token_reask(ctx, rep, "C02.signer_arm", D)
+    rep.floor("C02.signer_arm", 2)
+
+
 RULES = [
+    ("C02.signer_arm", rule_signer_arm),
+    ("C02.signer_config", rule_signer_config),
     ("C02.sig_range", rule_sig_range),
     ("C02.normalise", rule_normalise_),
     ("C02.sign_nonzero", rule_sign_nonzero),
@@ -178,6 +195,10 @@ RULES = [
 ]
 
 CONTROLS = [
+    {"rule": "C02.signer_config", "name": "Signer.sign reduces the message with the default hash", "module": D,
+     "edit": lambda ctx: M.sub_expr(ctx, f"{D}.Signer.sign", M.is_text("reduce_to_hlen(msg, self._hf)"), "reduce_to_hlen(msg)")},
+    {"rule": "C02.signer_arm", "name": "Signer.sign_ asks the predicate again", "module": D,
+     "edit": lambda ctx: M.sub_expr(ctx, f"{D}.Signer.sign_", M.is_text("self._pub_key_sec is not None"), "_libsecp256k1_serves(self._ec, self._hf)")},
     {"rule": "C02.sig_range", "name": "s may equal n", "module": D,
      "edit": lambda ctx: M.sub_expr(ctx, f"{D}.Sig.assert_valid", M.is_text("0 < self.s < self.ec.n"), "0 < self.s <= self.ec.n")},
     {"rule": "C02.normalise", "name": "recover_pub_key_ trusts a Sig instance", "module": D,
